@@ -8,7 +8,7 @@
 From Coq Require Import List NArith ZArith Bool Lia Arith.
 From Okv Require Import Model.Lit Model.Syntax Model.Comb Model.ParseExpr Model.ParseMeta
   Model.ParsePosting Model.ParseTxn Model.ParseDirective Model.ParseLedger Model.RoundTripSpec
-  Proofs.CombSpec.
+  Proofs.CombSpec Proofs.ParseExprErase.
 Import ListNotations.
 Open Scope N_scope.
 
@@ -488,13 +488,36 @@ Lemma npr_mul_op : npr mul_op.
 Proof. unfold mul_op. npr_t. Qed.
 #[export] Hint Resolve npr_amount npr_add_op npr_mul_op : nprdb.
 
-Lemma npr_infixl : forall fuel op operand, npr op -> npr operand -> npr (infixl fuel op operand).
-Proof. intros. unfold infixl. npr_t. Qed.
-Lemma npr_unary_expr : forall ve, npr ve -> npr (unary_expr ve).
+Lemma npr_chain_loop : forall (op : parser s_binop) (p : parser s_expr), npr op -> npr p ->
+  forall fuel lhs, npr (chain_loop fuel op p lhs).
 Proof.
-  intros ve Hve i a r Hi H. unfold unary_expr in H. destruct i as [| c t]; [discriminate |].
+  intros op p Hop Hp.
+  assert (Hs : npr (delimited space0 op space0)) by npr_t.
+  induction fuel as [| n IH]; intros lhs i a r Hi H; cbn [chain_loop] in H.
+  - destruct (delimited space0 op space0 i) as [x m | [] l0 m | |] eqn:E; try discriminate.
+    + destruct (p m) as [b m' | [] l1 m' | |]; try discriminate.
+      * destruct (fits_under _); discriminate.
+      * inversion H; subst. auto.
+    + inversion H; subst. auto.
+  - destruct (delimited space0 op space0 i) as [x m | [] l0 m | |] eqn:E; try discriminate.
+    + destruct (Hs _ _ _ Hi E) as [_ Hm].
+      destruct (p m) as [b m' | [] l1 m' | |] eqn:F; try discriminate.
+      * destruct (fits_under _); [| discriminate].
+        destruct (Hp _ _ _ Hm F) as [_ Hm']. eapply IH; eauto.
+      * inversion H; subst. auto.
+    + inversion H; subst. auto.
+Qed.
+Lemma npr_infixl_e : forall fuel op operand, npr op -> npr operand -> npr (infixl_e fuel op operand).
+Proof.
+  intros fuel op p Hop Hp i a r Hi H. unfold infixl_e in H.
+  destruct (p i) as [x m | | |] eqn:E; try discriminate. destruct (Hp _ _ _ Hi E) as [_ Hm].
+  exact (npr_chain_loop op p Hop Hp fuel x m a r Hm H).
+Qed.
+Lemma npr_unary_e : forall ve, npr ve -> npr (unary_e ve).
+Proof.
+  intros ve Hve i a r Hi H. unfold unary_e in H. destruct i as [| c t]; [discriminate |].
   destruct (c =? 45).
-  - use_npv (fun _ : s_expr => True) H Hi. unfold negate_expr. npr_t.
+  - use_npv (fun _ : s_expr => True) H Hi. unfold negate_e. apply npr_try_map. npr_t.
   - use_npv (fun _ : s_expr => True) H Hi. npr_t.
 Qed.
 
@@ -507,13 +530,14 @@ Proof.
   - destruct (c =? 40); [discriminate |]. exact (GA _ _ _ Hi H).
   - destruct (c =? 40); [| exact (GA _ _ _ Hi H)].
     use_npv (fun v : s_vexpr => np_vexpr v = true) H Hi.
-    apply npv_pmap. eapply npv_weaken; [apply npv_paren | intros ? []].
+    unfold paren_e. eapply npv_try_map with (P1 := fun _ => False); [| intros ? ? []].
+    apply npv_paren.
     apply npr_delimited; [npr_t | | npr_t].
-    apply npr_infixl; [npr_t |]. apply npr_infixl; [npr_t |]. apply npr_unary_expr.
+    apply npr_infixl_e; [npr_t |]. apply npr_infixl_e; [npr_t |]. apply npr_unary_e.
     eapply npv_npr, IH.
 Qed.
 Lemma npv_value_expr : forall fuel, npv (value_expr fuel) (fun v => np_vexpr v = true).
-Proof. intros. apply npv_value_expr_d. Qed.
+Proof. intros fuel i v r Hi H. rewrite value_expr_erase in H. exact (npv_value_expr_d fuel _ i v r Hi H). Qed.
 Lemma npr_value_expr : forall fuel, npr (value_expr fuel).
 Proof. intros. eapply npv_npr, npv_value_expr. Qed.
 #[export] Hint Resolve npr_value_expr : nprdb.
